@@ -75,5 +75,13 @@ def _mk(base, name, **attrs):
     return type(name, (base,), attrs)()
 
 
+def _twin_none(self, tier):
+    return 0, []
+
+
 KERNELS = [_mk(AnyParentIs, "AnyParentSelf", include_self=True, id="C01.P.any_parent_is[include_self]", describe="any_parent_is(expr, pred): True iff pred holds for expr or one of its ancestors (walk up the parent chain of any length)"),
            _mk(AnyParentIs, "AnyParentStrict", include_self=False, id="C01.P.any_parent_is[ancestors only]", describe="any_parent_is(expr, pred, include_self=False): True iff pred holds for a proper ancestor")]
+for st in (1, 2):  # the same walk exists in the stage1 and stage2 expression layers (used by the parser's and the solver's bracket checks)
+    for inc in (True, False):
+        KERNELS.append(_mk(AnyParentIs, f"AnyParent_s{st}_{inc}", include_self=inc, file=f"einx/_src/namedtensor/stage{st}/transform.py", module=f"einx._src.namedtensor.stage{st}.transform", twin=_twin_none,
+                           id=f"C01.P.any_parent_is[stage{st}, {'include_self' if inc else 'ancestors only'}]", describe=f"stage{st} any_parent_is: True iff pred holds for expr (if included) or one of its ancestors"))
